@@ -145,3 +145,33 @@ def c03(ctx):
                   assumptions=["agreement on the lattice pins every coefficient because each FK entry is multilinear in "
                                "(sin q_i, cos q_i)", "the float oracle (harness/src/oracle.rs) is itself replayed against "
                                "the exact TLA+ chain in the same run (signature chain:ORACLE:*)"])
+
+
+# ----------------------------------------------------------------------------- C09
+@check("C09")
+def c09(ctx):
+    if ctx.quick:
+        consts = {"MaxDepth": 2, "Isos": "{1, 2, 3, 5}", "Leafs": "{1, 2}"}
+    else:
+        consts = {"MaxDepth": 3, "Isos": "{1, 2, 3, 4, 5, 6}", "Leafs": "{1, 2, 3}"}
+    # the recursive definitions of module Stack agree with the incremental model (small bound)
+    tlc(ctx, "Gen_Stack", cfg="MC_Stack", workers=4)
+    g = tlc(ctx, "Gen_Stack", constants=consts, workers=8, xmx="12g")
+    lines = tlc_json_lines(g["out"], "stack")
+    if not lines:
+        raise core.ToolError("Gen_Stack printed no behaviours")
+    write_ndjson(ctx.path("stack.ndjson"), lines)
+    opwv(ctx, ["replay", "stack", ctx.path("stack.ndjson"), ctx.path("stack.out")])
+    st = replay_results(ctx, ctx.path("stack.out"), "C09")
+    ctx.evaluations += st.get("evaluations", 0)
+    ctx.traces += len(lines)
+    for ln in lines:
+        if len(ln["layers"]) >= 2:
+            ctx.nontrivial.add((tuple((l["k"], l["idx"]) for l in ln["layers"]), tuple(ln["e"])))
+    ctx.exhaustive = True
+    return finish(ctx, rule="every stack of Tool/Frame/Base layers up to depth MaxDepth over the lattice isometries Isos "
+                  "(plus LinearAxis/Gantry mounts) x leaf configurations, generated by TLC one Wrap action at a time with the "
+                  "exact reported pose and link poses; each replayed around a recording leaf (all 4 inverse entries, forward, "
+                  "link poses, limits, singularity) and around the real OPW solver; non-trivial = depth >= 2",
+                  assumptions=["5-DOF clauses are replayed only for stacks whose tool/frame layers are axial (the statement's "
+                               "presupposition)"])
